@@ -29,10 +29,32 @@ struct C15 : Scenario {
         Rng r(seed);
         Plan p;
         double u = r.unit();
-        std::string mode = u < 0.4 ? "flow" : u < 0.75 ? "bounds" : u < 0.85 ? "ensemble" : "prog";
+        std::string mode = u < 0.4 ? "flow" : u < 0.72 ? "bounds" : u < 0.8 ? "ensemble" : u < 0.9 ? "prog" : "progflow";
         p.set("mode", mode);
         p.setu("entropy", r.u64());
         p.setu("pseed", r.u64());
+        if (mode == "progflow") {
+            // the flow clause through the real main loop: a blob from a start file, one tracked particle on its centre, RF (static or
+            // modulated) and drift only; after every step the particle's recorded position has to be the blob's centre of charge
+            Cfg c;
+            c.grid = r.range(64, 96); c.pssize = 12; c.steps = r.range(20, 60);
+            long nsteps = r.range(6, 16);
+            c.rotations = (nsteps - 0.5) / (double)c.steps;
+            c.outstep = 1; c.saveps = 1; c.renorm = -1; c.gap = 0; c.tdamp = 0; c.interp = r.pick(std::vector<long>{3, 4, 4});
+            c.linearRF = r.chance(0.7); c.fptrack = r.range(0, 3); c.padding = 2;
+            Derived d0 = derive(c);
+            if (r.chance(0.75)) {
+                int k = (int)r.range(0, 2);
+                if (k <= 1) { c.rf_mod_ampl = std::round(r.uniform(0.5, 4) * 100) / 100; c.rf_mod_freq = std::round(d0.fs * r.uniform(2, 6)); }
+                if (k == 2) c.rf_phase_spread = std::round(r.uniform(0.3, 2) * 100) / 100;
+            }
+            double amp = r.uniform(0, 1.2), ph = r.uniform(0, 2 * M_PI);
+            p.setd("q0", amp * std::cos(ph)); p.setd("p0", amp * std::sin(ph));
+            c.startfile = "blob.h5"; c.tracking = "track.txt";
+            plan_file(p, "track.txt", fmt_g(amp * std::cos(ph), 9) + " " + fmt_g(amp * std::sin(ph), 9) + "\n");
+            c.to_plan(p);
+            return p;
+        }
         if (mode == "prog") {
             SwarmOpts o; o.max_grid = 24; o.max_rot_steps = tier == "quick" ? 12 : 30; o.allow_multibunch = false;
             Cfg c = swarm_cfg(r, o);
@@ -339,9 +361,47 @@ struct C15 : Scenario {
         o.sample = "prog " + cfg.summary() + " particles=" + std::to_string(np);
     }
 
+    void run_progflow(const Plan& plan, RunCtx& rc, Outcome& o) const {
+        Cfg cfg = Cfg::from_plan(plan);
+        Derived d = derive(cfg);
+        unsigned n = (unsigned)cfg.grid;
+        stage_inputs(plan, rc.workdir);
+        const double q0 = plan.getd("q0"), p0 = plan.getd("p0"), sig = 3.0 * (double)d.delta_q;
+        std::vector<float> data((size_t)n * n);
+        for (unsigned x = 0; x < n; x++) for (unsigned y = 0; y < n; y++) { double q = d.q(x) - q0, pp = d.p(y) - p0; data[(size_t)x * n + y] = (float)std::exp(-(q * q + pp * pp) / (2 * sig * sig)); }
+        if (!h5_write_f32(rc.workdir + "/blob.h5", "/PhaseSpace/data", {1, n, n}, data)) { o.set_infra("cannot write start file"); return; }
+        Launch l = make_launch(cfg, rc.workdir, "run", plan.getu("entropy"), 0);
+        LaunchResult r = run_launch(l);
+        o.launches++; o.simsteps = r.sumi("steps_done");
+        if (!r.exited || r.code != 0) { o.fail("C15.program_run", "run with a tracked particle ended with " + r.describe() + " " + tail(r.err)); return; }
+        H5Snap s = h5_read(rc.workdir + "/" + cfg.output);
+        auto ps = s.get(PS_DATA); auto pd = s.get("/Particles/data");
+        if (!s.ok || !ps || !pd || pd->rows() != ps->rows() || pd->rowlen() < 2) { o.set_infra("unexpected results layout"); return; }
+        size_t rl = ps->rowlen();
+        double worst = 0;
+        for (size_t rec = 0; rec < ps->rows(); rec++) {
+            double sw = 0, sq = 0, sp = 0;
+            for (unsigned x = 0; x < n; x++) for (unsigned y = 0; y < n; y++) { double w = ps->at(rec * rl + (size_t)x * n + y); sw += w; sq += w * d.q(x); sp += w * d.p(y); }
+            double cq = sq / sw, cp = sp / sw, pq = pd->at(rec * pd->rowlen()), pp = pd->at(rec * pd->rowlen() + 1);
+            // stored particle coordinates are those of the mesh point below the particle: up to one cell short on either axis
+            double dq = (cq - pq) / (double)d.delta_q, dp = (cp - pp) / (double)d.delta_p;
+            o.checks++;
+            worst = std::max(worst, std::max(std::fabs(dq - 0.5), std::fabs(dp - 0.5)));
+            if (dq < -0.1 || dq > 1.1 || dp < -0.1 || dp > 1.1) {
+                o.fail("C15.particle_follows_charge", "record " + std::to_string(rec) + ": the charge placed on the tracked particle is centred at (" + fmt_g(cq, 7) + "," + fmt_g(cp, 7) + ") but the particle is recorded at (" + fmt_g(pq, 7) + "," + fmt_g(pp, 7) + "), " + fmt_g(dq, 3) + " / " + fmt_g(dp, 3) + " cells apart (the record holds the mesh point below the particle: 0..1 expected) [" + cfg.summary() + "]");
+                break;
+            }
+        }
+        o.probe("cls.progflow." + std::string(cfg.linearRF ? "lin" : "sin") + (d.dynamic_rf ? ".dyn" : ".static") + ".trk" + std::to_string(cfg.fptrack));
+        o.nontrivial = true;
+        o.mixfp(r.evhash()); o.mixfp(s.digest());
+        o.sample = "progflow " + cfg.summary() + " worst offset from the cell's middle " + fmt_g(worst, 3);
+    }
+
     Outcome run(const Plan& plan, RunCtx& rc) const override {
         Outcome o;
         std::string mode = plan.get("mode");
+        if (mode == "progflow") { run_progflow(plan, rc, o); o.mixfp((uint64_t)o.fails.size()); return o; }
         if (mode == "flow") run_flow(plan, rc, o);
         else if (mode == "bounds") run_bounds(plan, rc, o);
         else if (mode == "ensemble") run_ensemble(plan, rc, o);
